@@ -12,9 +12,13 @@
                  quaternion the matrix->quaternion conversion must return up to sign, with the branch (largest of
                  trace / diagonal entries, evaluated exactly) that the conversion design takes.
 
+   kind "axis" : a rotation axis with integer components and rational length (it need not be a unit vector) and an
+                 exact angle; the rotation matrix by Rodrigues' formula  c I + (1 - c) u u^T + s [u]x,  u = axis / length.
+
    Invariants on every published case: the matrix is a proper rotation (M M^T = den^2 I, row1 x row2 = den row3, i.e. det = +1); the
    conjugation definition and the closed-form quaternion matrix agree; the recovered quaternion gives the same matrix;
-   a fixed-frame composition equals the moving-frame composition with order and angles reversed.
+   a fixed-frame composition equals the moving-frame composition with order and angles reversed; an axis-angle rotation
+   fixes its axis, has trace 1 + 2 cos(angle), and about a coordinate axis it is the elementary rotation.
 
    R: harness/c20_replay evaluates rotateE, eulerAngles, Quaternion::matrix, Matrix4::rotation, axisAngle, rotate in
    double and float and compares rotations with these exact values (tolerance 1e-9 / 1e-4).                       *)
@@ -90,17 +94,34 @@ Recovered(q) ==
         s == IF br = 0 THEN Sgn(q[1]) ELSE IF br = 1 THEN Sgn(q[3]) ELSE IF br = 2 THEN Sgn(q[4]) ELSE Sgn(q[2])
     IN <<s * q[1], s * q[2], s * q[3], s * q[4]>>
 
+(* axis-angle: axes <<x, y, z, L>> with x^2 + y^2 + z^2 = L^2; numerators over the denominator d L^2 *)
+Axes == << <<1, 0, 0, 1>>, <<0, 1, 0, 1>>, <<0, 0, 1, 1>>, <<0, 0, -2, 2>>, <<1, 2, 2, 3>>, <<2, -1, 2, 3>>, <<-2, -2, 1, 3>>,
+           <<0, 3, 4, 5>>, <<3, 0, -4, 5>>, <<2, 3, 6, 7>>, <<-6, 2, 3, 7>>, <<4, 4, 7, 9>>, <<2, 4, 4, 6>>, <<-1, -4, 8, 9>> >>
+ASSUME \A i \in 1..Len(Axes) : Axes[i][1] * Axes[i][1] + Axes[i][2] * Axes[i][2] + Axes[i][3] * Axes[i][3] = Axes[i][4] * Axes[i][4]
+Rodrigues(ax, a) ==
+    LET x == ax[1] y == ax[2] z == ax[3] L == ax[4] cs == a[1] sn == a[2] d == a[3]
+        v == <<x, y, z>>
+        K3 == << <<0, -z, y>>, <<z, 0, -x>>, <<-y, x, 0>> >>          \* the cross-product matrix [axis]x
+    IN [i \in I3 |-> [j \in I3 |-> (IF i = j THEN cs * L * L ELSE 0) + (d - cs) * v[i] * v[j] + sn * L * K3[i][j]]]
+ASSUME \A k \in 1..Len(Angles) : /\ Rodrigues(<<1, 0, 0, 1>>, Angles[k]) = Elem(0, Angles[k])
+                                  /\ Rodrigues(<<0, 1, 0, 1>>, Angles[k]) = Elem(1, Angles[k])
+                                  /\ Rodrigues(<<0, 0, 1, 1>>, Angles[k]) = Elem(2, Angles[k])
+
 -------------------------------------------------------------------------------
 AngleIx == 1..NAngles
 Init == /\ phase = "gen"
         /\ \/ c \in [k : {"euler"}, o : Orders, a : AngleIx \X AngleIx \X AngleIx, fixed : BOOLEAN]
            \/ c \in [k : {"quat"}, q : UnitQuats]
+           \/ c \in [k : {"axis"}, x : 1..Len(Axes), a : 1..Len(Angles)]
 
 Case(p) ==
     IF p.k = "euler" THEN
         LET an == <<Angles[p.a[1]], Angles[p.a[2]], Angles[p.a[3]]>> IN
         [k |-> "euler", ord |-> p.o, fixed |-> IF p.fixed THEN 1 ELSE 0, ang |-> an,
          m |-> FlatZ(Compose(p.o, an, p.fixed)), den |-> an[1][3] * an[2][3] * an[3][3]]
+    ELSE IF p.k = "axis" THEN
+        LET ax == Axes[p.x] an == Angles[p.a] IN
+        [k |-> "axis", axis |-> ax, ang |-> an, m |-> FlatZ(Rodrigues(ax, an)), den |-> an[3] * ax[4] * ax[4]]
     ELSE
         LET M == RotByConj(p.q) IN
         [k |-> "quat", q |-> p.q, n |-> Root(Norm2(p.q)), m |-> FlatZ(M), den |-> Norm2(p.q),
@@ -122,6 +143,10 @@ QuatTwoWays == (phase = "done" /\ c.k = "quat") =>
 \* rotating about fixed axes in the order a0 a1 a2 = rotating about moving axes in the order a2 a1 a0
 FixedIsReversedMoving == (phase = "done" /\ c.k = "euler" /\ c.fixed = 1) =>
     Unflat(c.m) = Compose(<<c.ord[3], c.ord[2], c.ord[1]>>, <<c.ang[3], c.ang[2], c.ang[1]>>, FALSE)
+AxisAngle == (phase = "done" /\ c.k = "axis") =>
+    LET M == Unflat(c.m) v == <<c.axis[1], c.axis[2], c.axis[3]>> L == c.axis[4] IN
+    /\ \A i \in I3 : M[i][1] * v[1] + M[i][2] * v[2] + M[i][3] * v[3] = c.den * v[i]         \* the axis is fixed
+    /\ M[1][1] + M[2][2] + M[3][3] = (c.ang[3] + 2 * c.ang[1]) * L * L                        \* trace = 1 + 2 cos
 \* every branch of the conversion design is exercised by the quaternion set (checked on the parameters, not per state)
 ASSUME K < 2 \/ {Branch(RotClosed(q)) : q \in UnitQuats} = 0..3
 
